@@ -19,3 +19,11 @@ Fixpoint c17_from (i : Z) (l : list c17) : list Z :=
   end.
 Definition c17_failures (l : list c17) : list Z := c17_from 0%Z l.
 Definition c17_out (c : c17) := (c17_code c, lp_write (c17_model c), lp_read (c17_tokens c)).
+
+(* the premise of the whole-file round-trip theorem on the tied models (not a failure by itself) *)
+Fixpoint c17_unmet_from (i : Z) (l : list c17) : list Z :=
+  match l with
+  | [] => []
+  | c :: cs => if lp_okb (c17_model c) then c17_unmet_from (i + 1)%Z cs else i :: c17_unmet_from (i + 1)%Z cs
+  end.
+Definition c17_premise_unmet (l : list c17) : list Z := c17_unmet_from 0%Z l.
